@@ -21,7 +21,9 @@ from mc.explore import pmap, NPROC  # noqa: E402
 from mpf.core.bcp.bcp_socket_client import BCPClientSocket, decode_command_string, encode_command_string  # noqa: E402
 
 STRINGS = ["", "a", "a b", "ü€𝄞", "&", "=", "?", "#", "%", "%41", "+", "int:5", "float:1", "bool:true", "NoneType:",
-           "&bytes=3", "\n", "json=", "a/b", "A", ";", "\t", "'\"", "{x}"]
+           "&bytes=3", "\n", "json=", "a/b", "A", ";", "\t", "'\"", "{x}",
+           # strings that only start like a typed value
+           "bool:yes", "Bool:1", "int:", "float:x", "NoneType:x"]
 INTS = [0, -1, 5, 2 ** 63]
 FLOATS = [0.5, -0.0, 1e-7, 1e22, float("inf")]
 OTHERS = [True, False, None]
